@@ -133,6 +133,10 @@ class C15Executor(Executor):
         return super().note_store(st, ref, node)
 
     def call_method(self, st, obj, name, args, kwargs, node):
+        if type(obj).__name__ in ("VSetC", "VDictC") and name in O.DEF_MUTATORS:
+            # a module-level literal table (the engine reads it as a constant) is mutated in place: shared by every call
+            self.shared_mutated(st, node, f".{name}() on a module-level object")
+            return [(st, NONE)]
         if isinstance(obj, VExt) and obj.sort == "C15Shared":
             if name in O.DEF_MUTATORS:
                 self.shared_mutated(st, node, f".{name}() on a module-level object")
@@ -156,6 +160,20 @@ class C15Executor(Executor):
     # mutator call on one is recorded like a mutation of a published object; handing one out is not "a fresh object"
     def shared_mutated(self, st, node, what="module-level object"):
         st.ghost["published_mutated"] = tuple(st.ghost.get("published_mutated", ())) + (f"{self.loc(node)} ({what})",)
+
+    # ---- round 7: the archive configuration cell (only while `config_contract` is verified: it switches reg.global_cells on)
+    def store_global(self, st, name, v):
+        st.ghost["global_stores"] = tuple(st.ghost.get("global_stores", ())) + (name,)
+        return super().store_global(st, name, v)
+
+    def unknown_global(self, st, name):
+        mk = getattr(self.reg, "c15_cell_invariant", {}).get((self.module.rel, name))
+        if mk is None:
+            return super().unknown_global(st, name)
+        v = mk(self, st)                 # module invariant of the cell (see config_contract): an object of the configuration class
+        st.ghost[("global", self.module.rel, name)] = v
+        st.ghost["C15_old_cell"] = v
+        return v
 
     def truth(self, st, v):
         if isinstance(v, VExt) and v.sort == "C15Shared":
@@ -331,6 +349,9 @@ def contracts(reg):
     pp_ = permanent_patch_contract(reg, roles.get("permanent-aes-patch"))
     if pp_ is not None:
         out.append(pp_)
+    cc_ = config_contract(reg)
+    if cc_ is not None:
+        out.append(cc_)
 
     def restored(c):
         a = c.st.ghost.get("modattrs", {})
@@ -551,6 +572,117 @@ def provider_contract(reg, prov, shapes):
         note="verified on the real body (round 7); the patcher's call site keeps the model `C15.patcher`, which this contract implies",
     )
     ROLE_OF[me.target] = "<char-map-patch-targets>"
+    return me
+
+
+def config_contract(reg, repo=None):
+    """Round 7.  The configuration function of the archive extractor (H4 was a dataflow reading: "`_config` is rebound only by
+    configuration functions").  Found by what it does: the one function of the module that declares a module-level name `global`,
+    whose initialiser constructs a frozen dataclass of the module, and takes every field of that class as an Optional parameter.
+    Verified on the real body, with the module invariant "the cell holds an instance of that class with int / bool fields" for the
+    value read at entry (inductive: the initialiser constructs one, and clause 1 shows the only writer stores one):
+      1 the name is rebound to an object ALLOCATED BY THIS CALL of the configuration class -- configuration objects that earlier
+        calls / running extractions hold are never changed under them; nothing else is written (no other global, no module-level
+        container, no attribute of another module, no object older than the call);
+      2 every field of the new object is the argument or, where the argument is absent, the previous value (solver-discharged per
+        field) -- the configuration after a sequence of calls is a function of the arguments of those calls alone;
+      3 no exception."""
+    try:
+        mod = loader.module(ARCH, repo)
+        cands = []
+        for q, fn in mod.functions.items():
+            gl = [nm for x in ast.walk(fn) if isinstance(x, ast.Global) for nm in x.names]
+            if "." in q or len(gl) != 1 or gl[0] not in mod.assigns:
+                continue
+            init = mod.assigns[gl[0]]
+            if not (isinstance(init, ast.Call) and isinstance(init.func, ast.Name) and init.func.id in mod.classes and not init.args and not init.keywords):
+                continue
+            cls = mod.classes[init.func.id]
+            cls = cls if isinstance(cls, ast.ClassDef) else getattr(cls, "node", None)
+            if cls is None:
+                continue
+            fields = [(b.target.id, dotted(b.annotation) or "") for b in cls.body if isinstance(b, ast.AnnAssign) and isinstance(b.target, ast.Name)]
+            ps = [a.arg for a in fn.args.posonlyargs + fn.args.args + fn.args.kwonlyargs]
+            if fields and all(t in ("int", "bool") for (_f, t) in fields) and sorted(ps) == sorted(f for (f, _t) in fields) \
+                    and not fn.args.vararg and not fn.args.kwarg:
+                cands.append((q, fn, gl[0], init.func.id, fields, ps))
+        if len(cands) != 1:
+            return None
+        q, fn, cell, cname, fields, ps = cands[0]
+    except Exception:  # noqa
+        return None
+    from pyvc.state import HeapObj
+    from pyvc.verify import p_opt, p_int, p_bool
+    ftype = dict(fields)
+
+    def old_object(ex, st):
+        data = {f: (VInt(z3.Int(f"old_{f}")) if t == "int" else VBool(z3.Bool(f"old_{f}"))) for (f, t) in fields}
+        return VRef(st.alloc(HeapObj("obj", data, cname, False), ex.refs))
+
+    def mk_first(inner):
+        def mk(ex, st, name):
+            ex.reg.global_cells = True                                   # this contract only: its worker has its own registry
+            ex.reg.c15_cell_invariant = {(ARCH, cell): old_object}
+            return inner.make(ex, st, name)
+        return Maker(mk, desc=inner.desc)
+
+    params = []
+    for i, p_ in enumerate(ps):
+        m_ = p_opt(p_int() if ftype[p_] == "int" else p_bool())
+        params.append((p_, mk_first(m_) if i == 0 else m_))
+
+    def body(c):
+        return not c.at_call_site and c.ex.contract is me
+
+    def new_obj(c):
+        v = c.st.ghost.get(("global", ARCH, cell))
+        return v if isinstance(v, VRef) else None
+
+    def replaced_not_mutated(c):
+        if not body(c):
+            return z3.BoolVal(True)
+        g = c.st.ghost
+        bad = [f"global {n} rebound" for n in g.get("global_stores", ()) if n != cell]
+        bad += list(g.get("published_mutated", ())) + list(g.get("foreign_stores", ())) + [l for (_r, l) in g.get("nonfresh_stores", ())]
+        v = new_obj(c)
+        if cell not in g.get("global_stores", ()):
+            bad.append(f"{cell} is not rebound")
+        elif v is None or v.ref in c.entry.heap or not c.st.obj(v.ref).fresh or c.st.obj(v.ref).kind != "obj" or c.st.obj(v.ref).cls != cname:
+            bad.append(f"{cell} is not rebound to a {cname} allocated by this call")
+        old = g.get("C15_old_cell")
+        if isinstance(old, VRef) and c.st.heap.get(old.ref) is not None and c.st.obj(old.ref).data != {f: c.st.obj(old.ref).data.get(f) for f in ftype}:
+            bad.append("fields added to the previous configuration object")
+        if bad:
+            c.note = "; ".join(bad[:4])
+        return z3.BoolVal(not bad)
+
+    def field_clause(f):
+        def cl(c):
+            if not body(c):
+                return z3.BoolVal(True)
+            v = new_obj(c)
+            if v is None or c.st.obj(v.ref).kind != "obj" or f not in (c.st.obj(v.ref).data or {}):
+                c.note = f"no new configuration object with field {f}"
+                return z3.BoolVal(False)
+            new = c.st.obj(v.ref).data[f]
+            a = c.args[f]
+            if ftype[f] == "int":
+                old = z3.Int(f"old_{f}")
+                want = old if a is NONE or not isinstance(a, VInt) else z3.If(a.t != 0, a.t, old)       # `arg or previous`
+                return ops.int_term(new) == want if isinstance(new, VInt) else z3.BoolVal(False)
+            old = z3.Bool(f"old_{f}")
+            want = old if a is NONE or not isinstance(a, VBool) else a.t                                 # `arg if arg is not None else previous`
+            return c.ex._b(new) == want if isinstance(new, VBool) else z3.BoolVal(False)
+        return cl
+
+    me = FnContract(
+        target=f"{ARCH}::{q}", params=params,
+        ensures=[("rebinds-the-configuration-to-a-new-object-and-writes-nothing-else", replaced_not_mutated)] +
+                [(f"field#{i}-is-the-argument-or-the-previous-value", field_clause(f)) for i, (f, _t) in enumerate(fields)],
+        raises=[], total=True,
+        note="verified on the real body (round 7) under the module invariant that the cell holds a configuration object",
+    )
+    ROLE_OF[me.target] = "<configuration-setter>"
     return me
 
 
